@@ -6,7 +6,7 @@ import rwlib
 import whlib
 from props.c01 import run_jobs
 
-RULE = ("X-wh: vector tables with 1..23 dimensions, small integer entries and shuffled row order (table row != id "
+RULE = ("X-wh: vector tables with 1..23 dimensions (2..12 cues, 2..13 outcomes, up to 4 of each per event), small integer entries and shuffled row order (table row != id "
         "order), multi-cue / multi-outcome events with repeats (remove_duplicates=False) and without, eta = 2^-k, "
         "flavours real-real / binary-real / real-binary through wh.wh(method='openmp') for n_jobs 1..4 and "
         "n_outcomes_per_job 1..7 (also dimension counts that are not multiples of either), several temporary chunk "
@@ -30,8 +30,9 @@ def gen_cases(rng, n, thorough):
         if fl == "r2r" and k % 12 == 9:
             impl = "dict_wh"
             single = True
-        n_cues = rng.randint(2, 7)
-        n_outs = rng.randint(2, 8)
+        wide = k % 7 in (1, 4)                       # ids beyond 8: hash-set iteration order is not id order
+        n_cues = rng.randint(9, 12) if wide else rng.randint(2, 7)
+        n_outs = rng.randint(9, 13) if wide else rng.randint(2, 8)
         cues = ["c%d" % i for i in range(n_cues)]
         outs = ["o%d" % i for i in range(n_outs)]
         big = k % 10 == 7
@@ -43,8 +44,9 @@ def gen_cases(rng, n, thorough):
         if single:
             pol = 0
         many_chunks = k % 9 == 4 and not single          # more than 10 temporary chunk files
-        n_ev = rng.randint(22, 27) if many_chunks else rng.choice([1, 2, 3, 5, 8, 12])
-        events = whlib.gen_wh_events(rng, n_ev, cues, outs, dups=(pol != 0), single=single)
+        n_ev = rng.randint(22, 27) if many_chunks else rng.choice([8, 12, 16]) if wide else rng.choice([1, 2, 3, 5, 8, 12])
+        events = whlib.gen_wh_events(rng, n_ev, cues, outs, dups=(pol != 0), single=single,
+                                     max_c=4 if wide else 3, max_o=4 if wide else 2)
         chain = (k % 5 == 2) and n_ev >= 2 and impl != "numpy"
         cut = rng.randint(1, n_ev - 1) if chain else None
         c = {"fl": fl, "impl": impl, "eta": Fraction(1, 2 ** rng.randint(3, 6)), "cv": cv, "ov": ov,
